@@ -299,9 +299,7 @@ func (c *Client) Listen() error {
 
 			_, err = c.HandleInbound(buf[:n], from)
 			if err != nil {
-				c.log.Debugf("Failed to handle inbound message: %s. Exiting loop", err)
-
-				break
+				c.log.Debugf("Failed to handle inbound message: %s", err)
 			}
 		}
 
